@@ -140,6 +140,13 @@ static void split_before_chunk(Chunk *pc)
 
    Chunk *prev = pc->GetPrev();
 
+   if (prev->Is(CT_MACRO_FUNC))
+   {
+      // '#define NAME(' - a line break (backslash-newline) behind the name
+      // would turn the parameter list into the body of an object-like macro
+      return;
+   }
+
    if (  !pc->IsNewline()
       && !prev->IsNewline())
    {
